@@ -55,9 +55,12 @@ def strategy(tier):
         st.just({"t": "slice", "a": None, "b": None, "c": None}))
     basic = st.fixed_dictionaries({"t": st.just("basic"), "ax": st.lists(item, min_size=0, max_size=3),
                                    "ell": st.sampled_from([0, 0, 0, 1, 2])})
-    fancy = st.fixed_dictionaries({"t": st.just("fancy"), "v": st.sampled_from(["a0", "a0", "a0s", "sa", "pt"]),
-                                   "i": st.lists(st.integers(-4, 3), min_size=0, max_size=5),
-                                   "j": st.lists(st.integers(-4, 3), min_size=1, max_size=5),
+    fancy = st.fixed_dictionaries({"t": st.just("fancy"), "v": st.sampled_from(["a0", "a0", "a0s", "sa", "pt", "m0"]),
+                                   # up to 10 entries: long index arrays (numpy abbreviates their text form) and masks
+                                   "i": st.one_of(st.lists(st.integers(-4, 3), min_size=0, max_size=5),
+                                                  st.lists(st.integers(-12, 11), min_size=5, max_size=10)),
+                                   "j": st.one_of(st.lists(st.integers(-4, 3), min_size=1, max_size=5),
+                                                  st.lists(st.integers(-12, 11), min_size=5, max_size=10)),
                                    "sl": st.fixed_dictionaries({"a": sl_b, "b": sl_b,
                                                                 "c": st.sampled_from([None, None, 1, 2, -1])}),
                                    "two": st.booleans()})
@@ -247,7 +250,7 @@ class _Run:
         # integer arrays without repeats
         if nd == 0 or min(shp) == 0:
             return None
-        v = spec["v"] if nd >= 2 else "a0"
+        v = spec["v"] if nd >= 2 or spec["v"] == "m0" else "a0"
 
         def uniq(lst, n):
             seen, out = set(), []
@@ -263,7 +266,16 @@ class _Run:
         sl = slice(spec["sl"]["a"], spec["sl"]["b"], spec["sl"]["c"])
         self.labels.add(f"slice:fancy_{v}")
         if v == "a0":
-            return two(np.array(uniq(spec["i"], shp[0]), dtype=np.int64))
+            a = np.array(uniq(spec["i"], shp[0]), dtype=np.int64)
+            if a.size > 4:
+                self.labels.add("slice:fancy_long")
+            return two(a)
+        if v == "m0":      # boolean mask over the first axis
+            m = np.zeros(shp[0], dtype=bool)
+            m[[int(i) % shp[0] for i in spec["i"]]] = True
+            if m.size > 4:
+                self.labels.add("slice:fancy_long")
+            return m
         if v == "a0s":
             return (two(np.array(uniq(spec["i"], shp[0]), dtype=np.int64)), sl)
         if v == "sa":
